@@ -8,18 +8,19 @@ META = {
                  're-read, second FixVulns) judged by the Lean specification',
     'design_ref': 'DESIGN.md §5 C12',
     'text': 'Kernel-checked, unbounded: choosePatches returns a sublist of the computed patches, at most MaxUpgrades of them, pairwise compatible, none introducing when NoIntroduce; '
-            'no vulnerability fixed by a chosen patch is marked unactionable; ConstructPatches reports exactly old∖new and new∖old, hence new = old − fixed + introduced; substituting '
+            'no vulnerability fixed by a chosen patch is marked unactionable; ConstructPatches reports exactly old∖new and new∖old, hence new = old − fixed + introduced; its update list is the '
+            'requirement diff keyed by manifest ENTRY (name + npm alias / Maven type), one update per changed entry; substituting '
             'the reported requirement updates into the old requirements gives the patched requirements; given WriterCorrect (C13, proved for package.json, proved for the literal '
             'pom fragment and checked by correspondence otherwise) the fresh analysis of the written manifest equals the analysis the report was computed from; no patch implies '
             'unchanged requirements. The resolver and matcher are parameters (analysis is a function of the requirements). The end-to-end stream runs the real FixVulns on generated '
-            'npm/relax and Maven/override universes and lets the Lean specification judge: original − fixed + introduced = second analysis (single patch), requirements unchanged when '
-            'no patch, nothing fixed is unactionable.',
+            'npm/relax and Maven/override universes and lets the Lean specification judge: original − fixed + introduced = second analysis (single patch), the re-read manifest entries = the '
+            'original entries with the reported updates substituted (per entry, aliases included), requirements unchanged when no patch, nothing fixed is unactionable.',
     'note': 'Trusted: Lean kernel (axioms propext/Quot.sound/Classical.choice at most); determinism of the deps.dev resolvers and of the matcher (parameters); the C13 trust base for the '
             'writers; harness/cmd/c12gen + harness/remx + lean/Drivers/C12.lean. The equation is claimed for MaxUpgrades = 1 as the property states; for several patches only the '
             'unactionable and compatibility statements are checked. Lockfile-based (in-place) remediation is outside C12.',
 }
 P = 'Scalibr.Pipeline.'
-THEOREMS = [P + 'C12_choose_sublist', P + 'C12_unactionable', P + 'C12_patch_is_diff', P + 'C12_after_is_expected', P + 'C12_updates_substitute',
+THEOREMS = [P + 'C12_choose_sublist', P + 'C12_unactionable', P + 'C12_patch_is_diff', P + 'C12_after_is_expected', P + 'C12_update_per_entry', P + 'C12_alias_pair_witness', P + 'C12_updates_substitute',
             P + 'C12_roundtrip', P + 'C12_no_patch_no_change', P + 'C12_duplicate_witness', 'Scalibr.Npm.C12_writer_correct_npm']
 
 
@@ -32,7 +33,7 @@ def run(ctx):
                        'a fresh analysis lists every vulnerability id once (FindVulnerabilities groups by id); C12_duplicate_witness shows the hypothesis matters']
     ctx.rule = ('cp = 0-6 patches (1-2 updates over 4 packages x 2 old versions, 1-2 fixed ids, sometimes introduced ids) x MaxUpgrades in {-1,0,1,2,3} x NoIntroduce, through the real choosePatches and '
                 'computeVulnsResult; cd = old/new vulnerability id lists and old/new requirement lists (real package.json manifests) through the real ConstructPatches; '
-                'e2e = universe of 2-4 packages (dotted/scoped names, 1-6 versions, transitive package) x manifest (1-4 requirements, dev deps) x 1-3 vulnerabilities (chains: fixed here, introduced '
+                'e2e = universe of 2-4 packages (dotted/scoped names, 1-6 versions, transitive package) x manifest (1-4 requirements, dev deps; for npm every second manifest requires one package through 1-2 extra npm: alias entries at the identical or another range) x 1-3 vulnerabilities (chains: fixed here, introduced '
                 'there) x options (MaxUpgrades, NoIntroduce, ignore/explicit lists, DevDeps, MaxDepth, per-package levels), npm/relax and Maven/override, through the real FixVulns twice. '
                 'non-trivial = a patch was chosen / reported; distinct = distinct case lines')
     ok, _ = ctx.lean_build(['Scalibr.Properties.C12', 'drv_c12'])
@@ -68,7 +69,8 @@ def run(ctx):
         fi = lib.fields(impl)
         if case.startswith('e2e '):
             if fi.get('r') == 'ok':
-                asks.append('e2e2 %s %s %s %s %s %s %s %s %s' % (fi['k'], fi['explicit'], fi['orig'], fi['np'], fi['fixed'], fi['intro'], fi['after'], fi['unfix'], fi['reqsame']))
+                asks.append('e2e2 %s %s %s %s %s %s %s %s %s %s %s %s' % (fi['k'], fi['explicit'], fi['orig'], fi['np'], fi['fixed'], fi['intro'], fi['after'], fi['unfix'], fi['reqsame'],
+                                                                    fi['rb'], fi['ra'], fi['ru']))
             else:
                 asks.append('skip')
         else:
@@ -90,7 +92,7 @@ def run(ctx):
             elif r in ('err2', 'ok-rereaderr'):
                 verdict = 'the manifest FixVulns wrote cannot be analysed again (%s)' % r
             elif r == 'ok' and fm.get('spec') == '0':
-                verdict = 'end-to-end: ' + fm.get('why', '?') + ' (orig=%s fixed=%s introduced=%s second analysis=%s)' % (fi['orig'], fi['fixed'], fi['intro'], fi['after'])
+                verdict = 'end-to-end: ' + fm.get('why', '?') + ' (orig=%s fixed=%s introduced=%s second analysis=%s; entries before=%s after=%s reported updates=%s)' % (fi['orig'], fi['fixed'], fi['intro'], fi['after'], fi['rb'], fi['ra'], fi['ru'])
             elif r == 'ok' and fm.get('spec') != '1':
                 verdict = 'driver did not judge the case: ' + mod
             if verdict and fm.get('cls', '-') != '-' and ctx.known_finding(fm['cls'], verdict):
